@@ -136,8 +136,15 @@ Section Machine.
       match new_subscription st subscriber p with
       | None => (st, false)
       | Some st1 =>
-          let '(st2, ok) := node_publish fuel0 st1 pn pidx (subscriber, p) in
-          if ok then (st2, true) else (discard_port st2 subscriber p, false)
+          (* the fresh Subscription object survives only if some output set stores it: a set that already holds an equal
+             one (left behind by an earlier refused call) drops the new object, whose __del__ then unregisters the port *)
+          let s := (subscriber, p) in
+          let held := fun k => existsb (sub_eqb s) (get_out k (outs st1)) in
+          let stored :=
+            negb (held (pn, pidx))
+            || (is_future pn && existsb (fun inp => negb (held (fst inp)) && Nat.eqb (snd inp) pidx) (get_fin pn (finput st1))) in
+          let '(st2, ok) := node_publish fuel0 st1 pn pidx s in
+          if ok then ((if stored then st2 else discard_port st2 subscriber p), true) else (discard_port st2 subscriber p, false)
       end.
 
   Inductive op :=
